@@ -5,7 +5,7 @@
    non-digit, the index expressions of parseInt, containerTypeToCtx, the
    "unexpected state / context" panics of Next) are unreachable. *)
 From Coq Require Import String List NArith ZArith Bool Lia.
-From IonV Require Import Base.Wire Bin.Bits Data.Ion Num.Float Bin.BitStream Bin.BinReader
+From IonV Require Import Base.Wire Base.Utf8 Bin.Bits Data.Ion Num.Float Bin.BitStream Bin.BinReader
   Text.Tokenizer Text.Skipper Text.TextReader Text.TokenizerNP Text.TextNum.
 Import ListNotations.
 Open Scope N_scope.
@@ -187,7 +187,9 @@ Lemma read_null_type_spec x : U (x_tok x) ->
   hoare (read_null_type x) (fun _ x' => tokonly x x' /\ t_unfinished (x_tok x') = false).
 Proof.
   intros Hu. unfold read_null_type.
-  apply hb_next; [exact Hu|]. intros t1 Ht1. unfold rbind at 1, rget. cbn [x_tok xs_tok].
+  apply hb_frame; [apply tframe_peek|]. intros c t0 S0.
+  destruct (negb (is_identifier_start c)); [exact I|].
+  apply hb_next; [cbn; eapply same_U; eassumption|]. intros t1 Ht1. unfold rbind at 1, rget. cbn [x_tok xs_tok].
   destruct (negb (t_token t1 =? tokenSymbol)); [exact I|].
   apply hb_fin; [apply read_value_fin, rvb_symbol|]. intros v t2 _ F2. cbn [xs_tok x_tok] in *.
   destruct (null_type_of v); [|exact I]. cbn. split; [eexists; reflexivity|exact F2].
@@ -217,6 +219,43 @@ Proof.
   destruct (list_eqb v (s "nan")); [apply set_value_spec; assumption|].
   unfold rbind at 1, rget.
   apply hb_res; [apply new_symbol_token_np|]. intros k _. apply set_value_spec; assumption.
+Qed.
+
+(* the same with what the null.struct symbol-table case needs: where the reader stands afterwards *)
+Definition after_value (x x' : xstate) : Prop :=
+  wf x' /\ x_ctx x' = x_ctx x /\ x_state x' = state_after_value x' /\ t_unfinished (x_tok x') = false.
+Lemma set_value_spec2 ty v x : x_err x = false -> t_unfinished (x_tok x) = false ->
+  hoare (set_value ty v x) (fun _ x' => after_value x x').
+Proof.
+  intros E F. pose proof (set_value_spec ty v x E (fun T => ltac:(congruence))) as H.
+  unfold set_value, rmod, hoare in *. destruct H as [W C].
+  split; [exact W|split; [exact C|split; [reflexivity|exact F]]].
+Qed.
+Lemma on_null_spec2 ws x : t_unfinished (x_tok x) = false ->
+  hoare (on_null ws x) (fun _ x' => tokonly x x' /\ t_unfinished (x_tok x') = false).
+Proof.
+  intros F. unfold on_null. destruct ws; cbn [negb].
+  - cbn. split; [apply tokonly_refl|exact F].
+  - apply hb_frame; [apply tframe_skip_dot|]. intros ok t1 S1.
+    assert (F1 : t_unfinished t1 = false) by (destruct S1 as [_ [S1 _]]; congruence).
+    destruct ok.
+    + eapply hoare_weaken; [apply read_null_type_spec; cbn; intros T; congruence|].
+      intros ty x' H; cbn beta in H; destruct H as [[t' ->] F']. split; [eexists; reflexivity|exact F'].
+    + cbn. split; [eexists; reflexivity|exact F1].
+Qed.
+Lemma on_symbol_spec2 v ws x : x_err x = false -> t_unfinished (x_tok x) = false ->
+  hoare (on_symbol v ws x) (fun _ x' => after_value x x').
+Proof.
+  intros E F. unfold on_symbol.
+  destruct (list_eqb v (s "null")).
+  { eapply hb; [apply on_null_spec2; exact F|]. intros ty x1 H; cbn beta in H; destruct H as [[t1 ->] F1].
+    eapply hoare_weaken; [apply set_value_spec2; [exact E|exact F1]|].
+    intros u x' [W [C [S T]]]. split; [exact W|split; [exact C|split; [exact S|exact T]]]. }
+  destruct (list_eqb v (s "true")); [apply set_value_spec2; assumption|].
+  destruct (list_eqb v (s "false")); [apply set_value_spec2; assumption|].
+  destruct (list_eqb v (s "nan")); [apply set_value_spec2; assumption|].
+  unfold rbind at 1, rget.
+  apply hb_res; [apply new_symbol_token_np|]. intros k _. apply set_value_spec2; assumption.
 Qed.
 
 (* parseInt cannot panic on what readRadix yields, nor in radix 10 *)
@@ -367,6 +406,7 @@ Proof.
   match goal with |- hoare ((if ?b then _ else _) _) _ => destruct b end; [exact I|].
   eapply hb with (P := fun _ x1 => x1 = xs_tok x t1).
   { destruct (t_token (x_tok x) =? tokenSymbolQuoted); [reflexivity|].
+    match goal with |- hoare ((if ?b then _ else _) _) _ => destruct b end; [reflexivity|].
     unfold of_res. pose proof (new_symbol_token_np (x_lst x) v) as Hn.
     destruct (new_symbol_token (x_lst x) v); cbn; auto. }
   intros k x1 ->. unfold rbind at 1, rmod.
@@ -689,6 +729,7 @@ Proof.
   assert (Hav : x_state x = trsAfterValue -> state_after_value x = trsAfterValue) by (rewrite S; discriminate).
   assert (Heof : forall k, t_token (x_tok x) = k -> unf_of k = false -> wf (xs_eof x true)).
   { intros k K F. apply eof_wf; auto. intros T. rewrite (tokpost_unf _ _ Hp K), F in T. discriminate. }
+  match goal with |- hoare ((if ?b then _ else _) x) _ => destruct b end; [exact I|].
   destruct (t_token (x_tok x) =? tokenEOF) eqn:K0.
   { apply N.eqb_eq in K0. unfold x_at_top. destruct (x_ctx x) eqn:C; [|exact I].
     cbn. split; [|reflexivity]. apply eof_wf; auto. }
@@ -713,7 +754,16 @@ Proof.
       { (* the version marker *) cbn. split; [|reflexivity]. repeat split; cbn; auto. }
       destruct (t_token (x_tok x) =? tokenSymbolQuoted).
       + apply value_then_true; [|reflexivity]. apply set_value_spec; [exact E|intros T; cbn in T; congruence].
-      + apply value_then_true; [|reflexivity]. apply on_symbol_spec; [exact E|intros T; cbn in T; congruence]. }
+      + eapply hb; [apply on_symbol_spec2; [exact E|exact F2]|].
+        intros u x1 [W1 [C1 [S1 T1]]]. unfold rbind at 1, rget.
+        match goal with |- hoare ((if ?b then _ else _) _) _ => destruct b eqn:Bn end.
+        * (* $ion_symbol_table::null.struct: back inside Next *)
+          cbn. split; [|exact C1].
+          assert (Sv : state_after_value (xs_lst (x_clear x1) LSys) = state_after_value x1) by reflexivity.
+          repeat split; cbn; auto using wf_err.
+          -- rewrite S1. destruct (sav_cases x1) as [K|K]; rewrite K; auto.
+          -- intros K. rewrite Sv. rewrite <- S1. exact K.
+        * cbn. split; [exact W1|exact C1]. }
   match goal with |- hoare ((if ?b then _ else _) x) _ => destruct b eqn:K2 end.
   { apply hb_fin; [apply read_value_fin, rvb_strlike, K2|]. intros v t1 _ F1.
     apply value_then_true; [|reflexivity]. apply set_value_spec; [exact E|intros T; cbn in T; congruence]. }
@@ -931,3 +981,412 @@ Theorem no_panic_run inp ioerr p :
 Proof.
   apply run_ok; [exact parse_decimal_text_np|exact parse_ts_text_np|apply init_WF|intros []].
 Qed.
+
+(* ---- every text the reader holds is UTF-8 -------------------------------------------------------------------------- *)
+Definition vtext (t : text) : Prop := utf8_valid t = true.
+Definition vtok (k : tok) : Prop := match tk_text k with Some t => vtext t | None => True end.
+Definition vval (v : xvalue) : Prop :=
+  match v with XString t => vtext t | XSymbol k => vtok k | _ => True end.
+Definition vimp (i : imp) : Prop := Forall vtext (im_syms i).
+Definition vlst (l : rlst) : Prop :=
+  match l with LSys => True | LTab tb => Forall vimp (lt_imps tb) /\ Forall vtext (lt_locals tb) end.
+Definition V (x : xstate) : Prop :=
+  vval (x_value x) /\ match x_field x with Some k => vtok k | None => True end /\
+  Forall vtok (x_annots x) /\ vlst (x_lst x).
+
+Lemma v_system : Forall vtext system_symbols.
+Proof. repeat constructor. Qed.
+Lemma v_sys_imp : vimp sys_imp. Proof. exact v_system. Qed.
+
+Lemma v_imp_find i id t : vimp i -> imp_find_by_id i id = Some t -> vtext t.
+Proof.
+  unfold imp_find_by_id. intros Hi. destruct ((id =? 0) || (N.of_nat (length (im_syms i)) <? id)); [discriminate|].
+  intros E. apply nth_error_In in E. unfold vimp in Hi. rewrite Forall_forall in Hi. auto.
+Qed.
+Lemma v_find_in_imports : forall rest prev off nxt id t,
+  vimp prev -> Forall vimp rest -> find_in_imports prev rest off nxt id = Some t -> vtext t.
+Proof.
+  induction rest as [|nx rest IH]; intros prev off nxt id t Hp Hr; cbn [find_in_imports].
+  - apply v_imp_find; exact Hp.
+  - destruct (id <=? nxt); [apply v_imp_find; exact Hp|].
+    inversion Hr; subst. apply IH; assumption.
+Qed.
+Lemma v_lst_find l id t : vlst l -> lst_find_by_id l id = Some t -> vtext t.
+Proof.
+  destruct l as [|tb]; cbn [lst_find_by_id vlst].
+  - intros _. apply v_imp_find, v_sys_imp.
+  - intros [Hi Hl]. destruct (id =? 0); [discriminate|].
+    destruct (id <=? max_import_id (lt_imps tb)).
+    + destruct (lt_imps tb) as [|i0 rest]; [discriminate|]. inversion Hi; subst. apply v_find_in_imports; assumption.
+    + match goal with |- (if ?b then _ else _) = _ -> _ => destruct b end; [|discriminate].
+      intros E. apply nth_error_In in E. rewrite Forall_forall in Hl. auto.
+Qed.
+Lemma v_name_token l t : vtext t -> vtok (name_symbol_token l t).
+Proof. intros H; exact H. Qed.
+Lemma v_new_symbol_token l t k : vlst l -> vtext t -> new_symbol_token l t = Ok k -> vtok k.
+Proof.
+  intros Hl Ht. unfold new_symbol_token. destruct (symbol_identifier t).
+  - destruct (z <? 0)%Z; [discriminate|]. unfold tok_by_sid.
+    destruct (sid_ok l (Z.to_N z)); [|discriminate]. intros E; injection E as <-.
+    unfold vtok. cbn. destruct (lst_find_by_id l (Z.to_N z)) eqn:F; [|exact I]. eapply v_lst_find; eassumption.
+  - intros E; injection E as <-. apply v_name_token, Ht.
+Qed.
+Lemma v_tok_text t : vtext t -> vtok (tok_text t).
+Proof. intros H; exact H. Qed.
+
+Lemma V_tok x t : V x -> V (xs_tok x t). Proof. intros H; exact H. Qed.
+Lemma V_state x st : V x -> V (xs_state x st). Proof. intros H; exact H. Qed.
+Lemma V_eof x b : V x -> V (xs_eof x b). Proof. intros H; exact H. Qed.
+Lemma V_ctx x c : V x -> V (xs_ctx x c). Proof. intros H; exact H. Qed.
+Lemma V_explode x : V x -> V (x_explode x). Proof. intros H; exact H. Qed.
+Lemma V_clear x : V x -> V (x_clear x).
+Proof. intros [_ [_ [_ H]]]. repeat split; cbn; auto. Qed.
+Lemma V_val x ty v : V x -> vval v -> V (xs_val x ty v).
+Proof. intros [_ [H2 [H3 H4]]] Hv. repeat split; cbn; auto. Qed.
+Lemma V_lst x l : V x -> vlst l -> V (xs_lst x l).
+Proof. intros [H1 [H2 [H3 _]]] Hl. repeat split; cbn; auto. Qed.
+Lemma V_field x k : V x -> vtok k -> V (xs_field x (Some k)).
+Proof. intros [H1 [_ [H3 H4]]] Hk. repeat split; cbn; auto. Qed.
+Lemma V_annot x k : V x -> vtok k -> V (xs_annots x (x_annots x ++ [k])).
+Proof. intros [H1 [H2 [H3 H4]]] Hk. repeat split; cbn; auto. apply Forall_app; auto. Qed.
+
+(* V is kept whatever the outcome; an Ok answer satisfies Q *)
+Definition vpres {A} (m : R A) (Q : A -> Prop) : Prop :=
+  forall x, V x -> match m x with (x', Ok a) => V x' /\ Q a | (x', _) => V x' end.
+Definition any {A} : A -> Prop := fun _ => True.
+Lemma vpres_weaken {A} (m : R A) (Q Q' : A -> Prop) : vpres m Q -> (forall a, Q a -> Q' a) -> vpres m Q'.
+Proof. intros H HQ x Hx. specialize (H x Hx). destruct (m x) as [x' [a| | |]]; auto. destruct H; auto. Qed.
+Lemma vpres_ret {A} (a : A) (Q : A -> Prop) : Q a -> vpres (rret a) Q.
+Proof. intros H x Hx; split; auto. Qed.
+Lemma vpres_fail {A} (Q : A -> Prop) : vpres (@rfail A) Q. Proof. intros x Hx; exact Hx. Qed.
+Lemma vpres_panic {A} (Q : A -> Prop) : vpres (@rpanic A) Q. Proof. intros x Hx; exact Hx. Qed.
+Lemma vpres_rget : vpres rget V. Proof. intros x Hx; split; exact Hx. Qed.
+Lemma vpres_of_res {A} (r : res A) (Q : A -> Prop) : (forall a, r = Ok a -> Q a) -> vpres (of_res r) Q.
+Proof. intros H x Hx. unfold of_res. destruct r; auto. Qed.
+Lemma vpres_lift {A} (m : M A) (Q : A -> Prop) :
+  (forall t, match m t with Ok (a, _) => Q a | _ => True end) -> vpres (lift m) Q.
+Proof.
+  intros H x Hx. unfold lift. specialize (H (x_tok x)). destruct (m (x_tok x)) as [[a t]| | |]; auto.
+Qed.
+Lemma vpres_lift_any {A} (m : M A) : vpres (lift m) any.
+Proof. apply vpres_lift. intros t. destruct (m t) as [[a t']| | |]; exact I. Qed.
+Lemma vpres_rmod (f : xstate -> xstate) : (forall x, V x -> V (f x)) -> vpres (rmod f) any.
+Proof. intros H x Hx. split; [apply H; exact Hx|exact I]. Qed.
+Lemma vpres_bind {A B} (m : R A) (f : A -> R B) (P : A -> Prop) (Q : B -> Prop) :
+  vpres m P -> (forall a, P a -> vpres (f a) Q) -> vpres (rbind m f) Q.
+Proof.
+  intros Hm Hf x Hx. unfold rbind. specialize (Hm x Hx). destruct (m x) as [x1 [a| | |]]; auto.
+  destruct Hm as [H1 Pa]. apply Hf; assumption.
+Qed.
+Lemma vpres_bind_any {A B} (m : R A) (f : A -> R B) (Q : B -> Prop) :
+  vpres m any -> (forall a, vpres (f a) Q) -> vpres (rbind m f) Q.
+Proof. intros Hm Hf. eapply vpres_bind; [exact Hm|intros a _; apply Hf]. Qed.
+
+Ltac vp :=
+  repeat first
+    [ assumption
+    | apply vpres_fail | apply vpres_panic
+    | apply vpres_ret; exact I
+    | apply vpres_bind_any; [ first [ apply vpres_lift_any
+                                    | apply vpres_of_res; intros; exact I
+                                    | apply vpres_rmod; intros; first [assumption | apply V_state; assumption | apply V_eof; assumption]
+                                    | eapply vpres_weaken; [apply vpres_rget | intros; exact I] ] | intros ]
+    | match goal with
+      | |- vpres (if ?b then _ else _) _ => destruct b
+      | |- vpres (match ?v with _ => _ end) _ => destruct v
+      | |- vpres (let '(_, _) := ?p in _) _ => destruct p
+      end ].
+
+Lemma vpres_set_value ty v : vval v -> vpres (set_value ty v) any.
+Proof. intros Hv. unfold set_value. apply vpres_rmod. intros x Hx. apply V_val; [apply V_state; exact Hx|exact Hv]. Qed.
+Lemma vpres_read_null_type : vpres read_null_type any.
+Proof. unfold read_null_type. vp. Qed.
+Lemma vpres_on_null ws : vpres (on_null ws) any.
+Proof. pose proof vpres_read_null_type. unfold on_null. vp. Qed.
+Lemma vpres_on_symbol v ws : vtext v -> vpres (on_symbol v ws) any.
+Proof.
+  intros Hv. unfold on_symbol.
+  destruct (list_eqb v (s "null")); [apply vpres_bind_any; [apply vpres_on_null|intros; apply vpres_set_value; exact I]|].
+  destruct (list_eqb v (s "true")); [apply vpres_set_value; exact I|].
+  destruct (list_eqb v (s "false")); [apply vpres_set_value; exact I|].
+  destruct (list_eqb v (s "nan")); [apply vpres_set_value; exact I|].
+  eapply vpres_bind; [apply vpres_rget|]. intros x Hx.
+  eapply vpres_bind; [apply (vpres_of_res _ vtok)|].
+  { intros k E. destruct Hx as [_ [_ [_ Hl]]]. eapply v_new_symbol_token; eassumption. }
+  intros k Hk. apply vpres_set_value. exact Hk.
+Qed.
+Section Utf8Reader.
+Variable pd : list N -> res dec.
+Variable pt : list N -> res (list N).
+Lemma vpres_on_number tok : vpres (on_number pd tok) any.
+Proof. unfold on_number. vp; apply vpres_set_value; exact I. Qed.
+Lemma vpres_on_timestamp : vpres (on_timestamp pt) any.
+Proof. unfold on_timestamp. vp; apply vpres_set_value; exact I. Qed.
+Lemma vpres_on_lob : vpres on_lob any.
+Proof. unfold on_lob. vp; apply vpres_set_value; exact I. Qed.
+Lemma vpres_next_after_value : vpres next_after_value any.
+Proof. unfold next_after_value. vp. Qed.
+Lemma vpres_finish_value : vpres x_finish_value any.
+Proof. unfold x_finish_value. vp. Qed.
+
+Lemma read_value_vtext k : textual k = true ->
+  forall t, match t_read_value k t with Ok (v, _) => vtext v | _ => True end.
+Proof. intros Hk t. apply (valid_read_value k Hk t). Qed.
+Lemma textual_field k :
+  (k =? tokenSymbol) || (k =? tokenSymbolQuoted) || (k =? tokenString) || (k =? tokenLongString) = true -> textual k = true.
+Proof. intros H. repeat (apply orb_true_iff in H; destruct H as [H|H]); apply N.eqb_eq in H; subst; reflexivity. Qed.
+Lemma textual_symlike k :
+  (k =? tokenSymbolOperator) || (k =? tokenDot) || (k =? tokenSymbolQuoted) || (k =? tokenSymbol) = true -> textual k = true.
+Proof. intros H. repeat (apply orb_true_iff in H; destruct H as [H|H]); apply N.eqb_eq in H; subst; reflexivity. Qed.
+Lemma textual_strlike k : (k =? tokenString) || (k =? tokenLongString) = true -> textual k = true.
+Proof. intros H. repeat (apply orb_true_iff in H; destruct H as [H|H]); apply N.eqb_eq in H; subst; reflexivity. Qed.
+
+Lemma vpres_next_before_field_name : vpres next_before_field_name any.
+Proof.
+  unfold next_before_field_name. eapply vpres_bind; [apply vpres_rget|]. intros x Hx.
+  destruct (t_token (x_tok x) =? tokenCloseBrace); [vp|].
+  match goal with |- vpres (if ?b then _ else _) _ => destruct b eqn:K end; [|apply vpres_fail].
+  eapply vpres_bind; [apply (vpres_lift _ vtext), read_value_vtext, textual_field, K|]. intros v Hv.
+  match goal with |- vpres (if ?b then _ else _) _ => destruct b end; [apply vpres_fail|].
+  eapply vpres_bind with (P := vtok).
+  { destruct (t_token (x_tok x) =? tokenSymbolQuoted); [apply vpres_ret, v_tok_text, Hv|].
+    match goal with |- vpres (if ?b then _ else _) _ => destruct b end; [apply vpres_ret, v_name_token, Hv|].
+    apply vpres_of_res. intros k E. destruct Hx as [_ [_ [_ Hl]]]. eapply v_new_symbol_token; eassumption. }
+  intros k Hk. apply vpres_bind_any; [apply vpres_rmod; intros; apply V_field; assumption|]. intros _. vp.
+Qed.
+
+Section Lst.
+Variable api_next : xstate -> xstate * res bool.
+Hypothesis Hnext : forall x, V x -> V (fst (api_next x)).
+
+Ltac nxv x1 r :=
+  match goal with
+  | |- context [api_next ?x] =>
+    let H := fresh "Hn" in
+    pose proof (Hnext x) as H; destruct (api_next x) as [x1 r]; cbn [fst] in H
+  end.
+
+Lemma step_in_V x : V x -> V (fst (x_step_in x)).
+Proof.
+  intros H. unfold x_step_in. destruct (x_err x); [exact H|].
+  destruct (negb (x_state x =? trsBeforeContainer)); [exact H|].
+  destruct (x_type x =? TList); [apply V_tok, V_clear, V_state, V_ctx, H|].
+  destruct (x_type x =? TSexp); [apply V_tok, V_clear, V_state, V_ctx, H|].
+  destruct (x_type x =? TStruct); [apply V_tok, V_clear, V_state, V_ctx, H|exact H].
+Qed.
+Lemma lift_V {A} (m : M A) x : V x -> V (fst (lift m x)).
+Proof. intros H. unfold lift. destruct (m (x_tok x)) as [[a t]| | |]; cbn; auto. Qed.
+Lemma step_out_V x : V x -> V (fst (x_step_out x)).
+Proof.
+  intros H. unfold x_step_out. destruct (x_err x); [exact H|]. destruct (x_ctx x) as [|c rest]; [exact H|].
+  pose proof (lift_V t_finish_value x H) as H1.
+  destruct (lift t_finish_value x) as [x1 [b| | |]]; cbn [fst] in *; auto using V_explode.
+  assert (H2 : V (fst (if x_eof x1 then (x1, Ok tt) else lift (t_skip_container_contents c) x1)))
+    by (destruct (x_eof x1); [exact H1|apply lift_V, H1]).
+  destruct (if x_eof x1 then (x1, Ok tt) else lift (t_skip_container_contents c) x1) as [x2 [u| | |]];
+    cbn [fst] in *; auto using V_explode.
+  apply V_eof, V_clear, V_state, V_ctx, H2.
+Qed.
+
+(* the loops: the reader stays valid, and what they collect is valid *)
+Definition VR {A} (P : A -> Prop) (r : xstate * res A) : Prop :=
+  V (fst r) /\ match snd r with Ok a => P a | _ => True end.
+Lemma read_symbols_loop_V fuel : forall x acc,
+  V x -> Forall vtext acc -> VR (Forall vtext) (read_symbols_loop api_next fuel x acc).
+Proof.
+  induction fuel as [|f IH]; intros x acc H Ha; cbn [read_symbols_loop]; [split; auto; exact I|].
+  nxv x1 r. specialize (Hn H). destruct r as [[|]| | |]; try (split; cbn; auto; fail).
+  apply IH; [exact Hn|]. apply Forall_app; split; [exact Ha|]. constructor; [|constructor].
+  destruct (x_type x1 =? TString); [|reflexivity].
+  destruct Hn as [Hv _]. destruct (x_value x1); try reflexivity. exact Hv.
+Qed.
+Lemma read_symbols_V fuel x : V x -> VR (Forall vtext) (read_symbols api_next fuel x).
+Proof.
+  intros H. unfold read_symbols. destruct (negb (x_type x =? TList) || x_is_null x); [split; cbn; auto|].
+  pose proof (step_in_V x H) as H1. destruct (x_step_in x) as [x1 [[|]| | |]]; cbn [fst] in *; try (split; cbn; auto; fail).
+  pose proof (read_symbols_loop_V fuel x1 [] H1 (Forall_nil _)) as [H2 P2].
+  destruct (read_symbols_loop api_next fuel x1 []) as [x2 [sy| | |]]; cbn [fst snd] in *; try (split; cbn; auto; fail).
+  pose proof (step_out_V x2 H2) as H3. destruct (x_step_out x2) as [x3 [[|]| | |]]; cbn [fst] in *; split; cbn; auto.
+Qed.
+Lemma read_import_loop_V fuel : forall x d, V x -> V (fst (read_import_loop api_next fuel x d)).
+Proof.
+  induction fuel as [|f IH]; intros x d H; cbn [read_import_loop]; [exact H|].
+  nxv x1 r. specialize (Hn H). destruct r as [[|]| | |]; cbn [fst]; auto.
+  destruct (x_err x1); cbn [fst]; auto. destruct (field_text x1); cbn [fst]; auto.
+  repeat match goal with
+         | |- V (fst (if ?b then _ else _)) => destruct b
+         | |- V (fst (match ?v with _ => _ end)) => destruct v
+         end; cbn [fst]; auto.
+Qed.
+Lemma read_import_V fuel x : V x -> VR (fun o => match o with Some i => vimp i | None => True end) (read_import api_next fuel x).
+Proof.
+  intros H. unfold read_import. destruct (negb (x_type x =? TStruct) || x_is_null x); [split; cbn; auto|].
+  pose proof (step_in_V x H) as H1. destruct (x_step_in x) as [x1 [[|]| | |]]; cbn [fst] in *; try (split; cbn; auto; fail).
+  match goal with |- context [read_import_loop api_next fuel x1 ?d] =>
+    pose proof (read_import_loop_V fuel x1 d H1) as H2;
+    destruct (read_import_loop api_next fuel x1 d) as [x2 [dd| | |]] end; cbn [fst] in *; try (split; cbn; auto; fail).
+  pose proof (step_out_V x2 H2) as H3. destruct (x_step_out x2) as [x3 [[|]| | |]]; cbn [fst] in *; try (split; cbn; auto; fail).
+  repeat match goal with |- VR _ (if ?b then _ else _) => destruct b end; split; cbn; auto. constructor.
+Qed.
+Lemma read_imports_loop_V fuel : forall x acc,
+  V x -> Forall vimp acc -> VR (Forall vimp) (read_imports_loop api_next fuel x acc).
+Proof.
+  induction fuel as [|f IH]; intros x acc H Ha; cbn [read_imports_loop]; [split; auto; exact I|].
+  nxv x1 r. specialize (Hn H). destruct r as [[|]| | |]; try (split; cbn; auto; fail).
+  pose proof (read_import_V (S f) x1 Hn) as [H2 P2].
+  destruct (read_import api_next (S f) x1) as [x2 [[i|]| | |]]; cbn [fst snd] in *; try (split; cbn; auto; fail).
+  - apply IH; [exact H2|]. apply Forall_app; split; [exact Ha|constructor; [exact P2|constructor]].
+  - apply IH; assumption.
+Qed.
+Lemma read_imports_V fuel x : V x -> VR (Forall vimp) (read_imports api_next fuel x).
+Proof.
+  intros H. unfold read_imports.
+  match goal with |- VR _ (match ?c with _ => _ end) => assert (Hc : forall r, c = Some r -> VR (Forall vimp) r) end.
+  { intros r. destruct (x_type x =? TSymbol); [|discriminate].
+    destruct (x_err x); [intros E; injection E as <-; split; cbn; auto|].
+    destruct (x_value x) as [| | | | | | |tk| | |]; try discriminate.
+    destruct (is_append_marker tk); [|discriminate].
+    pose proof H as [_ [_ [_ H4]]].
+    destruct (x_lst x) as [|t0] eqn:El; intros E; injection E as <-; (split; [exact H|]); cbn.
+    - constructor.
+    - destruct H4 as [Hi Hl]. apply Forall_app; split; [exact Hi|constructor; [exact Hl|constructor]]. }
+  match goal with |- VR _ (match ?c with _ => _ end) => destruct c as [r|] end; [apply Hc; reflexivity|].
+  destruct (negb (x_type x =? TList) || x_is_null x); [split; cbn; auto|].
+  pose proof (step_in_V x H) as H1. destruct (x_step_in x) as [x1 [[|]| | |]]; cbn [fst] in *; try (split; cbn; auto; fail).
+  pose proof (read_imports_loop_V fuel x1 [] H1 (Forall_nil _)) as [H2 P2].
+  destruct (read_imports_loop api_next fuel x1 []) as [x2 [im| | |]]; cbn [fst snd] in *; try (split; cbn; auto; fail).
+  pose proof (step_out_V x2 H2) as H3. destruct (x_step_out x2) as [x3 [[|]| | |]]; cbn [fst] in *; split; cbn; auto.
+Qed.
+Lemma read_lst_loop_V fuel : forall x imps syms fi fs,
+  V x -> Forall vimp imps -> Forall vtext syms ->
+  VR (fun p => Forall vimp (fst p) /\ Forall vtext (snd p)) (read_lst_loop api_next fuel x imps syms fi fs).
+Proof.
+  induction fuel as [|f IH]; intros x imps syms fi fs H Hi Hs; cbn [read_lst_loop]; [split; auto; exact I|].
+  nxv x1 r. specialize (Hn H). destruct r as [[|]| | |]; try (split; cbn; auto; fail).
+  destruct (x_err x1); [split; cbn; auto|]. destruct (field_text x1) as [fnm|]; [|split; cbn; auto].
+  destruct (list_eqb fnm (s "symbols")).
+  - destruct fs; [split; cbn; auto|].
+    pose proof (read_symbols_V (S f) x1 Hn) as [H2 P2].
+    destruct (read_symbols api_next (S f) x1) as [x2 [sy| | |]]; cbn [fst snd] in *; try (split; cbn; auto; fail).
+    apply IH; assumption.
+  - destruct (list_eqb fnm (s "imports")); [|apply IH; assumption].
+    destruct fi; [split; cbn; auto|].
+    pose proof (read_imports_V (S f) x1 Hn) as [H2 P2].
+    destruct (read_imports api_next (S f) x1) as [x2 [im| | |]]; cbn [fst snd] in *; try (split; cbn; auto; fail).
+    apply IH; assumption.
+Qed.
+Lemma read_lst_V fuel x : V x -> VR vlst (read_local_symbol_table api_next fuel x).
+Proof.
+  intros H. unfold read_local_symbol_table.
+  pose proof (step_in_V x H) as H1. destruct (x_step_in x) as [x1 [[|]| | |]]; cbn [fst] in *; try (split; cbn; auto; fail).
+  pose proof (read_lst_loop_V fuel x1 [] [] false false H1 (Forall_nil _) (Forall_nil _)) as [H2 P2].
+  destruct (read_lst_loop api_next fuel x1 [] [] false false) as [x2 [[im sy]| | |]]; cbn [fst snd] in *; try (split; cbn; auto; fail).
+  pose proof (step_out_V x2 H2) as H3. destruct (x_step_out x2) as [x3 [[|]| | |]]; cbn [fst] in *; try (split; cbn; auto; fail).
+  destruct P2 as [Pi Ps]. split; [exact H3|]. cbn. split; [|exact Ps].
+  unfold process_imports. match goal with |- Forall vimp (if ?b then _ else _) => destruct b end; [exact Pi|].
+  constructor; [exact v_sys_imp|exact Pi].
+Qed.
+
+Lemma vpres_read_lst fuel : vpres (read_local_symbol_table api_next fuel) vlst.
+Proof.
+  intros x Hx. pose proof (read_lst_V fuel x Hx) as [H1 H2].
+  destruct (read_local_symbol_table api_next fuel x) as [x' [l| | |]]; cbn [fst snd] in *; auto.
+Qed.
+
+Lemma vpres_nbta fuel : vpres (next_before_type_annotations pd pt api_next fuel) any.
+Proof.
+  unfold next_before_type_annotations. eapply vpres_bind; [apply vpres_rget|]. intros x Hx.
+  match goal with |- vpres (if ?b then _ else _) _ => destruct b end; [apply vpres_fail|].
+  destruct (t_token (x_tok x) =? tokenEOF); [vp|].
+  match goal with |- vpres (if ?b then _ else _) _ => destruct b end; [apply vpres_fail|].
+  match goal with |- vpres (if ?b then _ else _) _ => destruct b eqn:K1 end.
+  { eapply vpres_bind; [apply (vpres_lift _ vtext), read_value_vtext, textual_symlike, K1|]. intros v Hv.
+    apply vpres_bind_any; [apply vpres_lift_any|]. intros [ok ws].
+    destruct ok.
+    - match goal with |- vpres (if ?b then _ else _) _ => destruct b end; [apply vpres_fail|].
+      match goal with |- vpres (if ?b then _ else _) _ => destruct b end; [apply vpres_fail|].
+      eapply vpres_bind; [apply vpres_rget|]. intros x2 Hx2.
+      eapply vpres_bind with (P := vtok).
+      { destruct (t_token (x_tok x) =? tokenSymbolQuoted); [apply vpres_ret, v_tok_text, Hv|].
+        apply vpres_of_res. intros k E. destruct Hx2 as [_ [_ [_ Hl]]]. eapply v_new_symbol_token; eassumption. }
+      intros k Hk. apply vpres_bind_any; [apply vpres_rmod; intros; apply V_annot; assumption|]. intros _. vp.
+    - match goal with |- vpres (if ?b then _ else _) _ => destruct b end.
+      { apply vpres_bind_any; [apply vpres_rmod; intros; apply V_lst; [assumption|exact I]|]. intros _. vp. }
+      destruct (t_token (x_tok x) =? tokenSymbolQuoted).
+      + apply vpres_bind_any; [apply vpres_set_value, v_tok_text, Hv|]. intros _. vp.
+      + apply vpres_bind_any; [apply vpres_on_symbol, Hv|]. intros _.
+        eapply vpres_bind; [apply vpres_rget|]. intros x1 Hx1.
+        match goal with |- vpres (if ?b then _ else _) _ => destruct b end; [|vp].
+        apply vpres_bind_any; [apply vpres_rmod; intros; apply V_lst; [apply V_clear; assumption|exact I]|]. intros _. vp. }
+  match goal with |- vpres (if ?b then _ else _) _ => destruct b eqn:K2 end.
+  { eapply vpres_bind; [apply (vpres_lift _ vtext), read_value_vtext, textual_strlike, K2|]. intros v Hv.
+    apply vpres_bind_any; [apply vpres_set_value, Hv|]. intros _. vp. }
+  match goal with |- vpres (if ?b then _ else _) _ => destruct b end.
+  { apply vpres_bind_any; [apply vpres_on_number|]. intros _. vp. }
+  destruct (t_token (x_tok x) =? tokenTimestamp).
+  { apply vpres_bind_any; [apply vpres_on_timestamp|]. intros _. vp. }
+  destruct (t_token (x_tok x) =? tokenOpenDoubleBrace).
+  { apply vpres_bind_any; [apply vpres_on_lob|]. intros _. vp. }
+  destruct (t_token (x_tok x) =? tokenOpenBrace).
+  { apply vpres_bind_any; [apply vpres_rmod; intros; apply V_val; [apply V_state; assumption|exact I]|]. intros _.
+    eapply vpres_bind; [apply vpres_rget|]. intros x1 Hx1.
+    match goal with |- vpres (if ?b then _ else _) _ => destruct b end; [|vp].
+    destruct (x_is_null x1).
+    - apply vpres_bind_any; [apply vpres_rmod; intros; apply V_lst; [apply V_clear; assumption|exact I]|]. intros _. vp.
+    - eapply vpres_bind; [apply vpres_read_lst|]. intros st Hst.
+      apply vpres_bind_any; [apply vpres_rmod; intros; apply V_lst; assumption|]. intros _. vp. }
+  destruct (t_token (x_tok x) =? tokenOpenBracket).
+  { apply vpres_bind_any; [apply vpres_rmod; intros; apply V_val; [apply V_state; assumption|exact I]|]. intros _. vp. }
+  destruct (t_token (x_tok x) =? tokenOpenParen).
+  { apply vpres_bind_any; [apply vpres_rmod; intros; apply V_val; [apply V_state; assumption|exact I]|]. intros _. vp. }
+  vp.
+Qed.
+
+Lemma next_loop_V fuel : forall k x, V x -> V (fst (x_next_loop pd pt api_next k fuel x)).
+Proof.
+  induction k as [|k IH]; intros x H; cbn [x_next_loop]; [exact H|].
+  pose proof (lift_V t_next x H) as H1.
+  destruct (lift t_next x) as [x1 [u| | |]]; cbn [fst] in *; auto using V_explode.
+  match goal with |- context [?step x1] =>
+    match type of step with R bool => assert (G : vpres step any) end end.
+  { destruct (x_state x1 =? trsAfterValue); [apply vpres_next_after_value|].
+    destruct (x_state x1 =? trsBeforeFieldName); [apply vpres_next_before_field_name|].
+    destruct (x_state x1 =? trsBeforeTypeAnnotations); [apply vpres_nbta|apply vpres_panic]. }
+  specialize (G x1 H1).
+  match goal with |- context [?step x1] =>
+    match type of step with R bool => destruct (step x1) as [x2 [[|]| | |]] end end; cbn [fst]; auto using V_explode.
+  - destruct G; assumption.
+  - destruct G; auto.
+Qed.
+Lemma next_with_V fuel x : V x -> V (fst (x_next_with pd pt api_next fuel x)).
+Proof.
+  intros H. unfold x_next_with. destruct ((x_state x =? trsDone) || x_eof x); [exact H|].
+  pose proof (vpres_finish_value x H) as H1.
+  destruct (x_finish_value x) as [x1 [u| | |]]; cbn [fst] in *; auto using V_explode.
+  destruct H1 as [H1 _]. apply next_loop_V, V_clear, H1.
+Qed.
+End Lst.
+
+Lemma next_inner_V x : V x -> V (fst (x_next_inner pd pt x)).
+Proof. intros H. unfold x_next_inner. apply next_with_V; [intros x0 H0; exact H0|exact H]. Qed.
+Lemma next_V x : V x -> V (fst (x_next pd pt x)).
+Proof. intros H. unfold x_next. apply next_with_V; [apply next_inner_V|exact H]. Qed.
+Lemma init_V inp ioerr : V (x_init inp ioerr).
+Proof. repeat split; cbn; auto. Qed.
+Lemma op_V x o : V x -> V (fst (x_op_res pd pt x o)).
+Proof.
+  intros H. destruct o; cbn [x_op_res].
+  1: { pose proof (next_V x H) as H1. destruct (x_next pd pt x) as [x1 [b| | |]]; cbn [fst] in *; auto. }
+  1: { pose proof (step_in_V x H) as H1. destruct (x_step_in x) as [x1 [b| | |]]; cbn [fst] in *; auto. }
+  1: { pose proof (step_out_V x H) as H1. destruct (x_step_out x) as [x1 [b| | |]]; cbn [fst] in *; auto. }
+  all: repeat match goal with
+           | |- V (fst (if ?b then _ else _)) => destruct b
+           | |- V (fst (match ?v with _ => _ end)) => destruct v
+           end; cbn [fst]; auto.
+Qed.
+Lemma run_V : forall p x acc, V x -> V (fst (x_run pd pt x p acc)).
+Proof.
+  induction p as [|o p IH]; intros x acc H; cbn [x_run]; [exact H|].
+  pose proof (op_V x o H) as H1. destruct (x_op_res pd pt x o) as [x1 [t| | |]]; cbn [fst] in *; auto.
+Qed.
+End Utf8Reader.
